@@ -193,6 +193,17 @@ theorem dt_gmtime_fields (t : Int) :
 
 example : gmtime 951782400 = ⟨2000, 2, 29, 0, 0, 0⟩ ∧ gmtime (-1) = ⟨1969, 12, 31, 23, 59, 59⟩ := by decide
 
+/-- `gmtime_r` inverts `timegm` on every broken-down time that denotes an existing day (day ≤ length of the month in the proleptic
+    Gregorian calendar, leap years every 4th year except the centuries not divisible by 400) and a time of day without leap second:
+    for these values `ly_time_str2time` stores exactly the date that was written -/
+theorem dt_gmtime_timegm (tm : Tm) (hm : 1 ≤ tm.mon ∧ tm.mon ≤ 12) (hd : 1 ≤ tm.mday ∧ tm.mday ≤ daysInMonth tm.year tm.mon)
+    (hh : 0 ≤ tm.hour ∧ tm.hour ≤ 23) (hmi : 0 ≤ tm.min ∧ tm.min ≤ 59) (hs : 0 ≤ tm.sec ∧ tm.sec ≤ 59) : gmtime (timegm tm) = tm :=
+  gmtime_timegm tm hm hd hh hmi hs
+
+/-- non-vacuity, and the hypothesis on the day is needed (F107): 2020-02-29 exists, 2021-02-29 comes back as 2021-03-01 -/
+example : daysInMonth 2020 2 = 29 ∧ daysInMonth 1900 2 = 28 ∧ daysInMonth 2000 2 = 29 ∧
+    gmtime (timegm ⟨2020, 2, 29, 23, 59, 59⟩) = ⟨2020, 2, 29, 23, 59, 59⟩ ∧ gmtime (timegm ⟨2021, 2, 29, 0, 0, 0⟩) = ⟨2021, 3, 1, 0, 0, 0⟩ := by decide
+
 /-! ## canonical form -/
 
 /-- For a value whose UTC year has four digits the canonical form is `YYYY-MM-DDThh:mm:ss` of the UTC broken-down time, the fraction
